@@ -20,10 +20,15 @@ func C18Config(prop string, r *Rand, tier string) map[string]int64 {
 	c := map[string]int64{}
 	lens := []int64{1, 1, 2, 2, 3, 4, 5, 7, 8, 10, 32}
 	c["epoch_len"] = lens[r.Intn(len(lens))]
-	c["pct"] = int64([]int{0, 1, 10, 33, 50, 51, 66, 80, 90, 99}[r.Intn(10)])
 	if r.Bool(30) {
+		// long epochs: many (length, percentage) pairs whose threshold falls exactly on a block
+		c["epoch_len"] = []int64{20, 25, 40, 50, 100, 100, 150, 200, 300, 400, 1000}[r.Intn(11)]
+	}
+	c["pct"] = int64([]int{0, 1, 10, 33, 50, 51, 66, 80, 90, 99}[r.Intn(10)])
+	if r.Bool(50) {
 		c["pct"] = int64(r.Intn(100))
 	}
+	c["w_thr"] = int64(r.Range(0, 12))
 	c["start"] = int64(r.Intn(12))
 	if r.Bool(15) {
 		c["start"] = int64(r.Range(12, 1000))
@@ -190,7 +195,7 @@ func runC18(tr *Trace, sc *Script, rec *Recorder) *Violation {
 
 	gen := func(r *Rand) (Op, bool) {
 		labels := w.ParkedLabels()
-		wts := []int{int(cfg["w_mine"]), int(cfg["w_shrink"]), int(cfg["w_rel"]), int(cfg["w_err"]), int(cfg["w_time"])}
+		wts := []int{int(cfg["w_mine"]), int(cfg["w_shrink"]), int(cfg["w_rel"]), int(cfg["w_err"]), int(cfg["w_time"]), int(cfg["w_thr"])}
 		if len(labels) == 0 {
 			wts[2], wts[3] = 0, 0
 			wts[4] += 30
@@ -214,6 +219,9 @@ func runC18(tr *Trace, sc *Script, rec *Recorder) *Violation {
 			return Op{K: "rel", S: "bn", A: []int64{0}}, true
 		case 3:
 			return Op{K: "rel", S: "bn", A: []int64{1}}, true
+		case 5:
+			// boundary bias: put the head on, just before or just after the first block at or beyond the percentage
+			return Op{K: "minethr", A: []int64{int64(r.Intn(3)) - 1, int64(r.Intn(2))}}, true
 		default:
 			ms := []int64{1000, 2000, 500, 12000, 60000}[r.Intn(5)]
 			return Op{K: "time", A: []int64{ms}}, true
@@ -231,6 +239,30 @@ func runC18(tr *Trace, sc *Script, rec *Recorder) *Violation {
 				chain.Mine(uint64(i), nil)
 			}
 			rec.Step(fmt.Sprintf("M%d", op.Arg(0)))
+		case "minethr":
+			thr := (P*N + 99) / 100 // first elapsed count with elapsed*100 >= P*N
+			if thr > N-1 {
+				thr = N - 1
+			}
+			head := chain.HeadNum()
+			e := uint64(0)
+			if head >= S {
+				e = (head - S) / N
+			}
+			e += uint64(op.Arg(1))
+			target := int64(S+e*N+thr) + op.Arg(0)
+			for k := 0; target <= int64(head) && k < 3; k++ {
+				target += int64(N)
+			}
+			n := target - int64(head)
+			if n < 1 || n > 2500 {
+				continue
+			}
+			for i := int64(0); i < n; i++ {
+				chain.Mine(uint64(i), nil)
+			}
+			rec.Stats.Inc("heads_put_at_threshold")
+			rec.Step(fmt.Sprintf("MT%d", op.Arg(0)))
 		case "shrink":
 			keep := int64(chain.HeadNum()) - op.Arg(0)
 			if keep < 1 {
